@@ -1,1 +1,141 @@
 // Suites that need access to items private to this module (feature ipa-verif, test builds only).
+//
+// ---------------------------------------------------------------------------------------------
+// C11 — duplicate detection through the real sharded input path: `reshard_aad` (private module
+// `reshard_tag`) with the picker used by `Query::execute`, then `UniqueTagValidator` on what each
+// shard owns.  `include!`d as `crate::query::runner::ipa_verif_hook`.
+//
+//   c11.path <n> <tags of shard 0>/<tags of shard 1>/…     (decimal u128 tags, `-` = none)
+//        -> per shard `ok` | `dup:<counter>`, `/`-separated (identical on the three helpers,
+//           otherwise `mixed`)
+// ---------------------------------------------------------------------------------------------
+pub mod c11_path {
+    use std::sync::Arc;
+
+    use futures::stream;
+
+    use super::super::reshard_tag::reshard_aad;
+    use crate::{
+        error::Error,
+        ff::boolean_array::BA8,
+        ipa_verif::{c11::tag_of, proto::*},
+        protocol::context::ShardedContext,
+        report::hybrid::{UniqueTag, UniqueTagValidator},
+        secret_sharing::replicated::semi_honest::AdditiveShare as Replicated,
+        sharding::ShardConfiguration,
+        test_fixture::{Runner, TestWorld, TestWorldConfig, WithShards},
+    };
+
+    async fn run_n<const N: usize>(tags: Vec<Vec<u128>>) -> String {
+        let world: TestWorld<WithShards<N>> = TestWorld::with_shards(TestWorldConfig::default());
+        let tags = Arc::new(tags);
+        let r: Vec<[String; 3]> = world
+            .semi_honest(Vec::<BA8>::new().into_iter(), |ctx, _input: Vec<Replicated<BA8>>| {
+                let tags = Arc::clone(&tags);
+                async move {
+                    let me = usize::from(ctx.shard_id());
+                    let mine: Vec<Result<(u32, UniqueTag), Error>> = tags[me]
+                        .iter()
+                        .enumerate()
+                        .map(|(i, t)| Ok((u32::try_from(i).unwrap(), tag_of(*t))))
+                        .collect();
+                    let n_mine = mine.len();
+                    // exactly the call made by query/runner/hybrid.rs: Query::execute
+                    let res = reshard_aad(ctx, stream::iter(mine), |ctx, _, tag: &UniqueTag| {
+                        tag.shard_picker(ctx.shard_count())
+                    })
+                    .await;
+                    match res {
+                        Err(e) => format!("err:{}", canon(&format!("{e:?}"))),
+                        Ok((data, resharded_tags)) => {
+                            // the reports themselves stay where they were submitted
+                            assert_eq!(data, (0..u32::try_from(n_mine).unwrap()).collect::<Vec<_>>());
+                            let mut v = UniqueTagValidator::new(resharded_tags.len());
+                            match v.check_duplicates(&resharded_tags) {
+                                Ok(()) => "ok".to_string(),
+                                Err(Error::DuplicateBytes(k)) => format!("dup:{k}"),
+                                Err(e) => format!("err:{}", canon(&format!("{e:?}"))),
+                            }
+                        }
+                    }
+                }
+            })
+            .await;
+        r.into_iter()
+            .map(|[a, b, c]| if a == b && b == c { a } else { "mixed".to_string() })
+            .collect::<Vec<_>>()
+            .join("/")
+    }
+
+    pub fn exec(req: &str) -> String {
+        let t: Vec<&str> = req.split(' ').collect();
+        assert_eq!(t[0], "c11.path");
+        let n: usize = t[1].parse().unwrap();
+        let tags: Vec<Vec<u128>> = t[2].split('/').map(|l| parse_nat_list::<u128>(l)).collect();
+        assert_eq!(tags.len(), n);
+        block_on_timeout(20, async move {
+            match n {
+                1 => run_n::<1>(tags).await,
+                2 => run_n::<2>(tags).await,
+                3 => run_n::<3>(tags).await,
+                4 => run_n::<4>(tags).await,
+                5 => run_n::<5>(tags).await,
+                _ => panic!("harness: unsupported shard count {n}"),
+            }
+        })
+        .unwrap_or_else(|e| e)
+    }
+
+    fn show(tags: &[Vec<u128>]) -> String {
+        tags.iter().map(|l| nat_list(l)).collect::<Vec<_>>().join("/")
+    }
+
+    pub fn generate(rng: &mut Rng, thorough: bool) -> Vec<String> {
+        let mut v = Vec::new();
+        for n in 1..=5usize {
+            // no reports at all; one report; the same report twice on one shard; on two shards
+            v.push(format!("c11.path {n} {}", show(&vec![vec![]; n])));
+            let mut one = vec![vec![]; n];
+            one[n - 1].push(u128::MAX);
+            v.push(format!("c11.path {n} {}", show(&one)));
+            // a duplicate pair at every (source shard a, source shard b) with distinct filler around it
+            for a in 0..n {
+                for b in a..n {
+                    for dup_tag in [0u128, (n as u128) - 1, n as u128, u128::MAX, (1u128 << 64) + 3] {
+                        let mut t: Vec<Vec<u128>> = (0..n).map(|s| (0..3 + s as u128).map(|k| 1000 + 100 * s as u128 + k).collect()).collect();
+                        let pa = rng.usize_below(t[a].len() + 1);
+                        t[a].insert(pa, dup_tag);
+                        let pb = rng.usize_below(t[b].len() + 1);
+                        t[b].insert(pb, dup_tag);
+                        v.push(format!("c11.path {n} {}", show(&t)));
+                    }
+                }
+            }
+            // pairwise distinct inputs of various sizes, including tags that differ only in high bits
+            for size in [1usize, 4, 9] {
+                let t: Vec<Vec<u128>> = (0..n).map(|s| (0..size).map(|k| ((k as u128) << 64) + (s as u128) * 7919 + (k as u128)).collect()).collect();
+                v.push(format!("c11.path {n} {}", show(&t)));
+            }
+        }
+        for _ in 0..(if thorough { 1500 } else { 150 }) {
+            let n = 1 + rng.usize_below(5);
+            let dom = 1 + rng.below(60);
+            let wide = rng.bool();
+            let t: Vec<Vec<u128>> = (0..n)
+                .map(|_| {
+                    let len = if rng.below(5) == 0 { 0 } else { rng.usize_below(13) };
+                    (0..len)
+                        .map(|_| if wide && rng.below(4) != 0 { rng.next_u128() } else { u128::from(rng.below(dom)) })
+                        .collect()
+                })
+                .collect();
+            v.push(format!("c11.path {n} {}", show(&t)));
+        }
+        v
+    }
+}
+
+#[test]
+fn verif_c11_path() {
+    crate::ipa_verif::proto::run_suite("c11_path", c11_path::generate, c11_path::exec);
+}
